@@ -537,6 +537,15 @@ pub fn drive_c15(seed: u64, thorough: bool, out: &mut dyn Write) -> usize {
         "00001s", "1.0000000000000000000000000001s", "100000000000000000000h", "1s1s", "1m1h", "0.000000001s", "0.0000000001s", "",
         " ", "1", "s", "h", ".s", ".", "1e3s", "1E3s", "1e-3s", "infs", "inf", "nans", "nan", "NaNs", "1 s", " 1s", "1s ", "1s garbage", "1sx", "1hh", "--1s", "+-1s", "-+1s", "1s-", "1,5s", "0x10s",
         "1d", "1w", "1y", "１s", "1S", "1H", "1.5.5s", "1..5s", "-", "+", "1h-30m", "1h 30m", "١s"].iter().map(|x| x.to_string()).collect();
+    // every unit with 1..15 fraction digits: digits beyond nanosecond resolution of the unit still count for h and m
+    for unit in ["h", "m", "s", "ms", "us", "ns"] {
+        for k in 1..=15usize {
+            strs.push(format!("0.{}1{}", "0".repeat(k - 1), unit));
+            strs.push(format!("1.{}3{}", "0".repeat(k - 1), unit));
+            strs.push(format!("-2.{}{}", "9".repeat(k), unit));
+            strs.push(format!("0.{}5{}1ns", "0".repeat(k - 1), unit));
+        }
+    }
     for c in canon.iter().take(if thorough { 400 } else { 80 }) {
         strs.push(c.clone());
         for m in 0..8 {
@@ -910,6 +919,17 @@ pub fn drive_c12(seed: u64, thorough: bool, out: &mut dyn Write) -> usize {
                     let o = prog_apply(&src, &[]);
                     e.rec("strlit", "lit", &sv(&src), &Value::Null, &src, o);
                 }
+            }
+        }
+    }
+    // verbatim line breaks (CR, LF, CRLF, LFCR, runs of them) in every style: kept as written inside triple quotes,
+    // an error in one-line literals
+    for (open, close) in styles.iter() {
+        for prefix in ["", "r", "b", "br", "R", "B"] {
+            for body in ["a\r\nb", "\r\n", "\n\r", "a\rb", "a\nb", "\r", "\n", "\r\n\r\n", "\r\r\n", "x\r\n", "\r\nx", "é\r\n日", " \t\r\n "] {
+                let src = format!("{}{}{}{}", prefix, open, body, close);
+                let o = prog_apply(&src, &[]);
+                e.rec("strlit", "lit", &sv(&src), &Value::Null, &src, o);
             }
         }
     }
